@@ -1312,7 +1312,9 @@ def __is_private(method_name: str) -> bool:
     return method_name.startswith("__") and not method_name.endswith("__")
 
 
-__NAME_MANGLED_PATTERN = re.compile(r"^_[A-Za-z][A-Za-z0-9]*__\w+$")
+# The class part may contain underscores (``_My_Cls__x``) and non-ASCII letters; only
+# its leading underscores are stripped by the mangling.
+__NAME_MANGLED_PATTERN = re.compile(r"^_[^\W_]\w*__\w+$")
 
 
 def __is_name_mangled(name: str) -> bool:
